@@ -182,6 +182,18 @@ def gen_configs(tier):
             add(kind, 3, 2, NR=1, NC=2, maxbad=2, vals="fni", whole=True)
             add(kind, 2, 2, NR=2, maxbad=2, vals="fn", series="vars", colour="z")
             add(kind, 2, 3, NR=2, NC=2, maxbad=1, vals="fn", colour="c", legend="off")
+        # --- jitter: drawn points = data up to the noise, and the caller's data stay bit for bit what they were
+        add(kind, 3, 1, maxbad=b1, yjit=0.01, mix=0)
+        add(kind, 2, 2, xvar=True, maxbad=b1, xjit=0.02, yjit=0.01, mix=0)
+        add(kind, 3, 2, maxbad=1, yjit=0.0005, xjit=0.01, ylog=True, xlog=True, colour="z", ZPos=[1, 3])
+        add(kind, 2, 2, NR=2, maxbad=1, vals="fn", yjit=0.01)
+        # --- explicit colour limits, also exactly 0 and negative, as zlims / vmin, vmax / half-open zlims
+        add(kind, 2, 3, maxbad=b1, colour="z", ZPos=[2, 3, 5], lims=(0, 9), colormap="viridis")
+        add(kind, 2, 3, maxbad=1, colour="z", ZPos=[1, 4, 2], lims=(0, 4), limkind="open")
+        add(kind, 2, 2, maxbad=1, colour="z", ZPos=[-1, -2], lims=(-3, 0), limkind="vmin", zdtype=None)
+        add(kind, 2, 3, maxbad=1, colour="c", lims=(0, 14), cshift=0, limkind="vmin", colormap="viridis")
+        add(kind, 2, 2, maxbad=1, colour="c", lims=(-2, 20), cshift=0)
+        add(kind, 2, 2, NR=2, NC=2, maxbad=0, vals="fn", colour="c", cshift=1)      # global minimum of c is exactly 0
         # --- series of exactly three / four points (a four-point series looks like an RGBA colour), as a whole
         #     series and as what NaN / inf leave of a longer one
         add(kind, 4, 1, maxbad=b2 if not T else full)
@@ -260,6 +272,9 @@ def gen_configs(tier):
     add("heat", 2, 2, NC=2, maxbad=b1 if not T else 3, vals="fn", gridtype=1, dimorder=1)
     add("heat", 2, 2, NR=2, NC=2, maxbad=1, vals="fn")
     add("heat", 2, 2, NR=3, maxbad=1, vals="fn")
+    add("heat", 2, 2, maxbad=b1, lims=(3, 12), voff=-3.0, limkind="vmin")               # vmin = 0 exactly
+    add("heat", 3, 2, maxbad=1, lims=(0, 7), voff=-7.0)                                 # zlims = (-7, 0)
+    add("heat", 2, 2, NR=2, maxbad=1, vals="fn", lims=(-5, 30), voff=5.0, limkind="vmin", colormap="viridis")
     add("heat", 2, 2, NC=3, maxbad=1 if not T else 2, vals="fn", gridtype=2, dimorder=1)
     add("heat", 2, 2, NR=3, NC=2, maxbad=0 if not T else 1, vals="fn", gridtype=1)
     for i, c in enumerate(out):
@@ -319,8 +334,9 @@ def idx(cfg, r, c, z, k):
     return (((r - 1) * C + (c - 1)) * NZ + (z - 1)) * NX + k
 
 
-def yval(i):
-    return 100.5 + i
+def yval(cfg, i):
+    """value of cell i (voff: offset, so that a colour limit of a heat map can be exactly 0)"""
+    return cfg["h"].get("voff", 100.5) + i
 
 
 def xvval(i):
@@ -344,7 +360,13 @@ def zq(cfg, pos):
 
 
 def cq(cfg, pos):
-    return float(2 ** pos) if cfg["h"].get("normlog") else 3.0 * pos - 1.0
+    """value of the colour variable at a position (cshift = s: position s is the value 0.0 exactly)"""
+    h = cfg["h"]
+    if h.get("normlog"):
+        return float(2 ** pos)
+    if "cshift" in h:
+        return 3.0 * (pos - h["cshift"])
+    return 3.0 * pos - 1.0
 
 
 def z_values(cfg):
@@ -428,7 +450,7 @@ def build(case):
             for z in range(1, NZ + 1):
                 for k in range(1, NX + 1):
                     i = idx(cfg, r, c, z, k)
-                    Y[r - 1, c - 1, z - 1, k - 1] = masked(yval(i), ym[i - 1], i)
+                    Y[r - 1, c - 1, z - 1, k - 1] = masked(yval(cfg, i), ym[i - 1], i)
                     XV[r - 1, c - 1, z - 1, k - 1] = masked(xvval(i), xm[i - 1], i) if cfg["xvar"] else 0.0
                     a = am[i - 1] if am else "f"
                     EY[r - 1, c - 1, z - 1, k - 1] = errval(i) if a == "f" else (np.nan if a == "n" else np.inf)
@@ -505,8 +527,21 @@ def build(case):
     if h.get("normlog"):
         b.kwargs["colormap_log"] = True
     if cfg["lims"]:
-        qm = cq if cfg["colour"] == "c" else zq
-        b.kwargs["zlims"] = (qm(cfg, cfg["lims"][0]), qm(cfg, cfg["lims"][1]))
+        qm = yval if kind == "heat" else (cq if cfg["colour"] == "c" else zq)
+        lo_, hi_ = qm(cfg, cfg["lims"][0]), qm(cfg, cfg["lims"][1])
+        lk = h.get("limkind", "zlims")
+        if lk == "vmin":
+            b.kwargs["vmin"], b.kwargs["vmax"] = lo_, hi_
+        elif lk == "open":            # upper limit left to the data: must be the data's maximum
+            top = max(cfg["CTab"]) if cfg["colour"] == "c" else max(cfg["ZPos"])
+            assert kind != "heat" and cfg["lims"][1] == top
+            b.kwargs["zlims"] = (lo_, None)
+        else:
+            b.kwargs["zlims"] = (lo_, hi_)
+    if h.get("xjit"):
+        b.kwargs["xjitter"] = h["xjit"]
+    if h.get("yjit"):
+        b.kwargs["yjitter"] = h["yjit"]
     for opt in ("legend", "colorbar"):
         if cfg[opt] != "auto":
             b.kwargs[opt] = cfg[opt] == "on"
@@ -793,7 +828,7 @@ def compare(case, b, fig, P):
 
     lo_hi = None
     if case["lim"] and case["lim"][0] != case["lim"][1]:     # a single value: normalisation undefined
-        qm = (lambda c_, p: yval(p)) if kind == "heat" else (cq if cfg["colour"] == "c" else zq)
+        qm = (lambda c_, p: yval(c_, p)) if kind == "heat" else (cq if cfg["colour"] == "c" else zq)
         lo_hi = (float(qm(cfg, case["lim"][0])), float(qm(cfg, case["lim"][1])))
 
     def check_colour(real_rgba, col, who):
@@ -832,9 +867,9 @@ def compare(case, b, fig, P):
                         if not got_masked:
                             P.add("mesh", "%s: cell (y %d, x %d) shows %r, the dataset has no finite value there"
                                   % (where, j + 1, k + 1, float(m["values"][j, k])))
-                    elif got_masked or m["values"][j, k] != yval(want):
+                    elif got_masked or m["values"][j, k] != yval(cfg, want):
                         P.add("mesh", "%s: cell (y %d, x %d) shows %s, the dataset value is %r"
-                              % (where, j + 1, k + 1, "nothing" if got_masked else repr(float(m["values"][j, k])), yval(want)))
+                              % (where, j + 1, k + 1, "nothing" if got_masked else repr(float(m["values"][j, k])), yval(cfg, want)))
             xs = np.arange(NX, dtype=float) if h.get("api") == "auto" else np.array(x_coords(cfg))
             ys = np.arange(NZ, dtype=float) if h.get("api") == "auto" else np.array(y_coords(cfg))
             xe, ye = m["xedges"], m["yedges"]
@@ -845,7 +880,7 @@ def compare(case, b, fig, P):
                 P.add("mesh", "%s: mesh edges x %s y %s do not enclose the coordinates x %s y %s"
                       % (where, xe.tolist(), ye.tolist(), xs.tolist(), ys.tolist()))
             if d["lim"] and d["lim"][0] != d["lim"][1]:
-                want = (yval(d["lim"][0]), yval(d["lim"][1]))
+                want = (yval(cfg, d["lim"][0]), yval(cfg, d["lim"][1]))
                 if m["vmin"] is None or m["vmax"] is None or not (close(m["vmin"], want[0]) and close(m["vmax"], want[1])):
                     msg = "%s: colours are normalised over [%s, %s], the finite values span [%s, %s]" % (
                         where, m["vmin"], m["vmax"], want[0], want[1])
@@ -864,7 +899,7 @@ def compare(case, b, fig, P):
             if len(hs) != len(exp):
                 P.add("series-count", "%s has %d histograms, expected one per series = %d" % (where, len(hs), len(exp)))
                 continue
-            allv = [yval(idx(cfg, r, c, d["s"], k)) for d in exp for k in d["pts"]]
+            allv = [yval(cfg, idx(cfg, r, c, d["s"], k)) for d in exp for k in d["pts"]]
             for d in exp:
                 if labels is not None:
                     cand = [x for x in hs if x["label"] == labels[d["s"] - 1]]
@@ -876,7 +911,7 @@ def compare(case, b, fig, P):
                 else:
                     g = hs[0]
                 who = "%s histogram %r" % (where, g["label"])
-                vals_ = [yval(idx(cfg, r, c, d["s"], k)) for k in d["pts"]]
+                vals_ = [yval(cfg, idx(cfg, r, c, d["s"], k)) for k in d["pts"]]
                 if g["edges"] is None:
                     P.add("hist", "%s: unreadable polygon" % who)
                     continue
@@ -928,12 +963,28 @@ def compare(case, b, fig, P):
             want_xy = []
             for k in d["pts"]:
                 i = idx(cfg, r, c, s, k)
-                want_xy.append((xvval(i) if cfg["xvar"] else x_coords(cfg)[k - 1], yval(i)))
+                want_xy.append((xvval(i) if cfg["xvar"] else x_coords(cfg)[k - 1], yval(cfg, i)))
             got_xy = [(float(p[0]), float(p[1])) for p in g["xy"]]
             # a line joins its points in x-position order; where the positions are spread over two
             # dimensions (split) or for a scatter the order carries no meaning
             ordered = kind == "line" and not h.get("split")
             a, w = (got_xy, want_xy) if ordered else (sorted(got_xy), sorted(want_xy))
+            jit = (h.get("xjit", 0), h.get("yjit", 0))
+            if any(jit) and len(got_xy) == len(want_xy):
+                # jitter requested: the drawn points are the data up to the noise (8 sigma; multiplicative on a
+                # log axis); the values are more than that apart, so each drawn point still names its cell
+                def near(g_, w_):
+                    tx = 8 * jit[0] * (abs(w_[0]) if h.get("xlog") else 1.0) + 1e-12
+                    ty = 8 * jit[1] * (abs(w_[1]) if h.get("ylog") else 1.0) + 1e-12
+                    return abs(g_[0] - w_[0]) <= tx and abs(g_[1] - w_[1]) <= ty
+                left = list(want_xy)
+                for g_ in got_xy:
+                    hit = [w_ for w_ in (left[:1] if ordered else left) if near(g_, w_)]
+                    if not hit:
+                        break
+                    left.remove(hit[0])
+                if not left:
+                    a = w
             if a != w:
                 P.add("points", "%s (label %r) draws %s, the finite (x, y) pairs of the dataset are %s"
                       % (who, g["label"], got_xy, want_xy),
@@ -942,7 +993,7 @@ def compare(case, b, fig, P):
             if kind == "line":
                 check_colour(g["color"], d["col"], who)
                 for nm, opt, scale in (("yerr", "yerr", 1.0), ("xerr", "xerr", 0.5)):
-                    if not h.get(opt):
+                    if not h.get(opt) or any(jit):
                         continue
                     segs = g[nm]
                     if segs is None or len(segs) != len(want_xy):
@@ -1024,6 +1075,8 @@ def check_case(case):
     P = Problems()
     b = build(case)
     snap = snapshot(b)
+    import numpy as np
+    np.random.seed(int(common.stable_hash([case["cfg"].get("id"), case["ym"], case["xm"]])[:8], 16))
     plotread.close_all()
     fig = None
     try:
